@@ -12,7 +12,7 @@ MODULES = ['Pysmi.Props.C17', 'Pysmi.Props.C17Tables', 'Pysmi.Pins.Lex', 'Pysmi.
 LAKE_TARGETS = ['Pysmi.Props.C17', 'Pysmi.Pins.Lex', 'Pysmi.Pins.SkelC17']
 SINGLES = ['supportSmiV1Keywords', 'commaAtTheEndOfImport', 'commaAtTheEndOfSequence', 'mixOfCommasAndSpaces', 'uppercaseIdentifier',
            'lowcaseIdentifier', 'curlyBracesAroundEnterpriseInTrap', 'noCells']
-THEOREMS = (['Pysmi.Pins.SkelC17.pin_parserFactory', 'Pysmi.Pins.SkelC17.pin_lexerFactory', 'Pysmi.Grammar.C17_simulation_sound', 'Pysmi.Grammar.simAll_map', 'Pysmi.Grammar.C17_option_order_irrelevant',
+THEOREMS = (['Pysmi.Pins.SkelC17.pin_parserFactory', 'Pysmi.Pins.SkelC17.pin_lexerFactory', 'Pysmi.Grammar.C17_false_option_ignored', 'Pysmi.Grammar.C17_unknown_rejected', 'Pysmi.Grammar.C17_known_accepted', 'Pysmi.Grammar.C17_factory_order_irrelevant', 'Pysmi.Generated.Grammar.C17_factories_false_ignored', 'Pysmi.Grammar.C17_simulation_sound', 'Pysmi.Grammar.simAll_map', 'Pysmi.Grammar.C17_option_order_irrelevant',
              'Pysmi.Generated.Grammar.C17_monotone_single', 'Pysmi.Generated.Grammar.C17_monotone_to_relaxed',
              'Pysmi.Generated.Grammar.C17_monotone_dialects', 'Pysmi.Generated.Grammar.C17_relaxed_is_larger',
              'Pysmi.Generated.Grammar.C17_options_disjoint', 'Pysmi.Generated.Grammar.C17_parser_order_irrelevant',
@@ -103,6 +103,53 @@ def switched_off(on):
     except BaseException as e:
         diffs.append('lexerFactory raised %s: %s' % (type(e).__name__, e))
     return diffs
+
+
+def factory_stream(ctx):
+    """the factories' keyword handling against Model.Grammar.factory: random keyword lists (known and unknown names, true and
+    false, any order); the class is observed through the members its own __dict__ carries"""
+    from pysmi import error
+    import pysmi.parser.smi as ps
+    import pysmi.lexer.smi as ls
+    res, rng = ctx.res, ctx.rng
+    reqs, metas = [], []
+    bogus = ['bogus', 'NoCells', 'supportsmiv1keywords', 'x']
+    for i in range(300 if ctx.tier == 'quick' else 3000):
+        which = ('parser', 'lexer')[i % 2]
+        mod = ps if which == 'parser' else ls
+        pool = list(ALL_OPTIONS) + (bogus if rng.random() < 0.4 else [])
+        names = rng.sample(pool, rng.randint(0, min(len(pool), 6)))
+        kw = [(n, rng.random() < 0.6) for n in names]
+        if which == 'parser':
+            # the parser factory builds a lexer from the same options: keep lexer construction out of the comparison
+            saved, ps.lexerFactory = ps.lexerFactory, (lambda **k: None)
+        try:
+            try:
+                cls = (ps.parserFactory if which == 'parser' else ls.lexerFactory)(**dict(kw))
+                table = mod.relaxedGrammar
+                owner = {}
+                for o, funcs in table.items():
+                    for f in funcs:
+                        owner[f.__name__] = o
+                got = {'ok': sorted([m, owner[m]] for m in cls.__dict__ if m in owner)}
+            except error.PySmiError as e:
+                bad = [n for n, v in kw if v and n not in mod.relaxedGrammar]
+                got = {'error': bad[0] if bad and bad[0] in str(e) else '?' + str(e)}
+            except BaseException as e:
+                got = {'raised': type(e).__name__}
+        finally:
+            if which == 'parser':
+                ps.lexerFactory = saved
+        res.case(('factory', which, tuple(kw)), any(not v for n, v in kw) or any(n in bogus for n, v in kw))
+        res.count('factory:' + ('ok' if 'ok' in got else 'error'))
+        reqs.append({'op': 'factory', 'which': which, 'kw': [[n, v] for n, v in kw]})
+        metas.append((which, kw, got))
+    if ctx.model is not None:
+        for (which, kw, got), out in zip(metas, ctx.model.batch(reqs)):
+            if 'ok' in out:
+                out = {'ok': sorted(out['ok'])}
+            if out != got:
+                res.corr_failures.append({'what': '%sFactory(**kw) differs from Model.Grammar.factory' % which, 'kw': kw, 'impl': got, 'model': out})
 
 
 def breakages(text):
@@ -551,6 +598,8 @@ def run(ctx):
         for d in switched_off(on):
             res.oracle_failures.append({'key': 'false-option', 'what': 'options [%s] true and every other known option false: %s' % (','.join(on) or 'none', d),
                                         'input': {'on': on}})
+
+    factory_stream(ctx)
 
     # (iii-b) parser tables cached on disk: parsers of different option sets sharing one cache directory (as successive
     # runs of a tool do) behave like parsers built without a cache
